@@ -22,9 +22,10 @@ META = {
                    "prefix, view extent = product/list of the remaining dimensions, slice = [begin*prod d_1.., (end-begin) x d_1..], reshape keeps the "
                    "pointer and infers size/prod(others). Storage conversions: every converting constructor/assignment of the owning, mapping and "
                    "const-mapping storages sets the dimensions from other.dims() and the data from other.data() (with other.size() elements) on "
-                   "every path, also through private helpers. Type-level: writing through a constant map, resizing a map, assigning to a constant map, "
+                   "every path, also through private helpers. The summed-area table recurrence yields the naive prefix sums (rank 1 and the rank-N step on symbolic "
+                   "instances) and every partial sum is carried in the output scalar type. Type-level: writing through a constant map, resizing a map, assigning to a constant map, "
                    "mapping a const owning tensor mutably and using the wrong number of indices do not compile (each with a compiling twin).",
-    "not_decided": "nano::integral, indexed gathers, remove_if and stack (loop-carried); Eigen's own Map addressing; exact divisibility in reshape (asserted by the code)",
+    "not_decided": "indexed gathers, remove_if and stack (loop-carried); Eigen's own Map addressing; exact divisibility in reshape (asserted by the code)",
     "assumptions": ["Eigen::Map(ptr, n) addresses ptr[0..n)", "the -1 inference is evaluated over the rationals (the code asserts divisibility)"],
 }
 
